@@ -1,30 +1,43 @@
 import Driver.Common
 import Driver.C05
+import Log4rsModel.Rolling.Ext17Spec
 /-
-C17 driver: the rolling-appender case format of `Driver/C05.lean` with an on-start-up trigger
-and a dense pre-existing window. The specification is the statement as a function: the first
-append of every appender rolls iff the file that exists at that moment has at least `min_size`
-bytes — the old content becomes the newest archive (`Spec.rotateWindow`), the record starts a
-fresh file; every other append just extends the active file; nothing else ever changes; the
-roller is asked exactly once by that first append and never otherwise (the harness's roller wrapper
-counts `Roll::roll` calls; `g!record` makes it report `Err` once after doing its work). It is
-compared with the directory the real code produced after every operation.
+C17 driver. Case formats:
+
+  seq   … the rolling-appender format of `Driver/C05.lean` with an on-start-up trigger; the
+          pre-existing window may have gaps; ops may carry `f<k>!` (step k of the rotation fails),
+          `g!` (the roller reports Err after its work) and `e<n>!` (the encoder fails)
+  conc  … the format of `Driver/C05.lean` (threads released by a barrier, one round)
+  conc2 <mode> <preActive> <preArchives> <trigger> <roller> <clock0> <amplifier> <late rounds> <rounds>
+          rounds `;`-joined, a restart (drop + build) between rounds; a round = threads `|`-joined,
+          a thread = `,`-joined records (`record` | `e<n>!record`); `late rounds` = `,`-joined indices of
+          the rounds in which the roller reports Err after doing its work
+          observation: rounds `&`-joined, each  <acks `|` per thread>!<Roll::roll calls>!<snapshot>
+  once  <min_size> <appenders `,`-joined: pre-existing size> <records per appender>
+          N appenders on N files sharing ONE trigger object; all first records released by a barrier
+          observation: `,`-joined per appender  <Roll::roll calls>:<active hex>:<archive hex | ->
+
+The specification is `Spec17.step` (`Log4rsModel/Rolling/Ext17Spec.lean`), the function about which
+`C17_model_refines_spec` is proved: the driver evaluates it on the REAL directory after every
+operation (whole rendered directory, number of `Roll::roll` invocations, Ok/Err of the append).
+For concurrent cases the commit order is reconstructed from the real file (records carry unique
+ids); `Spec17.step` is folded over that order and must reproduce the observed directory, the
+observed acknowledgements and the observed number of rotation requests (S); the model is run over
+the same order and its rendering is compared with the observation (T) — no echo.
 -/
 namespace Driver.C17
 open Log4rs.Proto Log4rs.Rolling Driver Driver.C05
-open Driver.C04 (recBytes hex)
+open Driver.C04 (recBytes hex RecSpec dedup)
 
-structure Expect where
-  window : List Bytes        -- newest first, slot base+i
-  active : Bytes
-  first : Bool
-  /-- the log file exists (it does not after a rotation whose record was not written) -/
-  present : Bool := true
+/-- the roller the model is run with is the wrapper the theorems speak about -/
+theorem rollFn_eq_lateWrap (rs : RollSpec) : rollFn rs = Spec17.lateWrap (rollFnPlain rs) := rfl
 
-/-- pre-existing archives inside the window, newest first (the generator makes them dense from base) -/
-def window0 (c : Case) : List Bytes :=
+abbrev Expect := Spec17.Expect
+
+/-- the pre-existing window, slot by slot (gaps allowed) -/
+def slots0 (c : Case) : List (Option Bytes) :=
   let (b, n) := c.window
-  (List.range n).filterMap (fun j => (c.preArch.find? (fun e => e.1 = b + j)).map (fun e => preArchBytes e.1 e.2))
+  (List.range n).map (fun j => (c.preArch.find? (fun e => e.1 = b + j)).map (fun e => preArchBytes e.1 e.2))
 
 def bystanders (c : Case) : List (Log4rs.Roller.Path × Bytes) :=
   let (b, n) := c.window
@@ -32,50 +45,76 @@ def bystanders (c : Case) : List (Log4rs.Roller.Path × Bytes) :=
 
 def renderExpect (c : Case) (x : Expect) : String :=
   let (b, _) := c.window
-  renderSnap (bystanders c ++ (List.range x.window.length).filterMap (fun i => x.window[i]?.map (fun w => (c.archName (b + i), w))) ++
+  renderSnap (bystanders c ++
+    (List.range x.slots.length).filterMap (fun i => (Spec17.slotAt x.slots i).map (fun w => (c.archName (b + i), w))) ++
     (if x.present then [(activePath, x.active)] else []))
 
-def isLate (op : OpSpec) : Bool := match op.op with | .append _ (some k) => k == LATE | _ => false
+def expect0 (c : Case) : Expect :=
+  { slots := slots0 c, active := if c.appendMode then (c.preActive.map preActiveBytes).getD [] else [], first := true }
 
-def stepExpect (c : Case) (minSize : Nat) (x : Expect) (op : OpSpec) : Expect :=
-  match op.op, op.rec? with
-  | .append _ _, some r =>
-    if op.fail.isSome then
-      -- the encoder fails, but the policy has already been consulted (get_writer → policy → encode):
-      -- the first record to ARRIVE decides; after a rotation `get_writer` has recreated the file
-      if x.first ∧ x.active.length ≥ minSize then
-        { window := Spec.rotateWindow c.window.2 x.window x.active, active := [], first := false, present := true }
-      else { x with first := false, present := true }
-    else
-    if x.first ∧ x.active.length ≥ minSize then
-      -- the one rotation; when the roller reports Err (after doing its work) the append fails
-      -- before the record is written: the old content is archived, no new file yet
-      if isLate op then { window := Spec.rotateWindow c.window.2 x.window x.active, active := [], first := false, present := false }
-      else { window := Spec.rotateWindow c.window.2 x.window x.active, active := recBytes r.chunks, first := false }
-    else { x with active := x.active ++ recBytes r.chunks, first := false, present := true }
-  | .restart, _ => { x with active := if c.appendMode then x.active else [], first := true, present := true }
-  | _, _ => x
+def isDense (slots : List (Option Bytes)) : Bool :=
+  let k := (slots.takeWhile Option.isSome).length
+  (slots.drop k).all Option.isNone
+
+/-- size of the file seen by a first arrival, relative to `min_size` -/
+def sizeTag (sz minSize : Nat) : String :=
+  if sz + 1 = minSize then "min-1" else if sz = minSize then "min" else if sz = minSize + 1 then "min+1"
+  else if sz < minSize then "<min" else if sz ≤ 2 * minSize + 2 then ">min+1" else ">>min"
+
+structure Walk where
+  x : Expect
+  tags : List String := []
+  appender : Nat := 0
 
 def specGo (c : Case) (minSize : Nat) : Nat → Expect → List OpSpec → List ObsEntry → Option String
   | _, _, [], [] => none
   | k, x, op :: ops, e :: es =>
-    let x' := stepExpect c minSize x op
-    let rolledNow := x.first ∧ x.active.length ≥ minSize ∧ op.rec?.isSome
-    let expectErr := (rolledNow ∧ isLate op) ∨ op.fail.isSome
-    if e.res = "PANIC" then some ("panic at op " ++ toString k)
-    else if e.calls ≠ (if rolledNow then 1 else 0) then
-      some (toString e.calls ++ " rotation request(s) to the roller at op " ++ toString k ++ ", expected " ++ (if rolledNow then "exactly 1" else "none"))
-    else if op.rec?.isSome ∧ (e.res = "ok") = expectErr then some ("append result " ++ e.res ++ " at op " ++ toString k)
+    let ev := Spec17.evOf op.xop
+    let (x', v) := Spec17.step c.window.2 minSize c.appendMode x ev
+    let rolledNow := Spec17.rollsNow minSize x && op.rec?.isSome
+    let loc := " at op " ++ toString k
+    if e.res = "PANIC" then some ("panic" ++ loc)
+    else if e.calls ≠ (match v with | some v => v.calls | none => 0) then
+      some (toString e.calls ++ " rotation request(s) to the roller" ++ loc ++ ", expected " ++
+        (if rolledNow then "exactly 1" else "none"))
+    else if (match v with | some v => e.res != (if v.ok then "ok" else "err") | none => e.res != "-") then
+      some ("append result " ++ e.res ++ loc)
     else if e.snapS ≠ renderExpect c x' then
       some ((if rolledNow ∧ op.fail.isSome then "first record (its encoder failed): the start-up rotation must still happen while it is handled"
+             else if rolledNow && (match v with | some v => !v.ok | none => false) then "first record with a failing roller: directory is not the image of the interrupted rotation / record written although the append failed"
              else if rolledNow then "first record: old content is not the newest archive / record not alone in a fresh file"
              else if x.first ∧ op.rec?.isSome then "first record rolled although the file was smaller than min_size (or lost data)"
-             else "later operation changed more than appending the record") ++ " at op " ++ toString k)
+             else "later operation changed more than appending the record") ++ loc)
     else specGo c minSize (k + 1) x' ops es
   | k, _, _, _ => some ("observation arity at op " ++ toString k)
 
-def expect0 (c : Case) : Expect :=
-  { window := window0 c, active := if c.appendMode then (c.preActive.map preActiveBytes).getD [] else [], first := true }
+/-- coverage tags derived from the statement's walk over the history -/
+def walkTags (c : Case) (minSize : Nat) (ops : List OpSpec) : List String :=
+  let step := fun (w : Walk) (op : OpSpec) =>
+    let ev := Spec17.evOf op.xop
+    let (x', v) := Spec17.step c.window.2 minSize c.appendMode w.x ev
+    let t1 := if w.x.first ∧ op.rec?.isSome then
+        ["arrival-size" ++ sizeTag w.x.active.length minSize] ++
+        (if w.appender > 0 then ["later-appender-first-record"] else []) ++
+        (if w.appender > 0 ∧ Spec17.rollsNow minSize w.x then ["later-appender-rolls"] else []) ++
+        (if Spec17.rollsNow minSize w.x then
+          (match v with
+           | some v => if v.ok then [] else
+              (match ev with
+               | .arrive _ true _ => ["first-record-encoder-fails-and-rolls"]
+               | .arrive _ _ (.failsAt _) => ["first-record-roller-fails-midway"]
+               | .arrive _ _ .late => ["first-record-roller-late-err"]
+               | _ => [])
+           | none => []) ++
+          (if !isDense w.x.slots then ["rolls-gapped-window"] else []) ++
+          (if w.x.slots.all Option.isSome ∧ !w.x.slots.isEmpty then ["rolls-full-window"] else [])
+         else [])
+      else []
+    let t2 := match op.op with
+      | .restart => if w.x.first then ["restart-without-record"] else []
+      | _ => []
+    { x := x', tags := w.tags ++ t1 ++ t2, appender := match op.op with | .restart => w.appender + 1 | _ => w.appender }
+  (ops.foldl step { x := expect0 c }).tags
 
 def handleSeq (cas obs : List String) : Answer :=
   withSeq cas obs fun c ops tr es =>
@@ -92,41 +131,293 @@ def handleSeq (cas obs : List String) : Answer :=
             | some why => "FAIL:" ++ why ++ ";sig=" ++ c.sig "C17"
       let sz := x0.active.length
       let firstFails := match ops.find? (fun o => o.rec?.isSome) with | some o => o.fail.isSome | none => false
-      let tags := modelTags c ops tr ++ ["min-" ++ toString minSize] ++
+      let tags := modelTags c ops tr ++ ["min-" ++ toString (if minSize > 100000 then 100000 else minSize)] ++
         (if firstFails then ["first-record-encoder-fails"] else []) ++
         (if ops.any (fun o => o.fail.isSome) then ["encoder-error"] else []) ++
-        [if sz + 1 = minSize then "size=min-1" else if sz = minSize then "size=min" else if sz = minSize + 1 then "size=min+1"
-         else if sz < minSize then "size<min" else "size>min"]
-      { model, spec, tags := if ops.isEmpty then "trivial" :: tags else "seq" :: tags }
+        (if !isDense x0.slots then ["gapped-window"] else []) ++
+        ["size" ++ sizeTag sz minSize] ++ walkTags c minSize ops
+      { model, spec, tags := if ops.isEmpty then "trivial" :: dedup tags else "seq" :: dedup tags }
     | _ => badCase "C17 needs an on-start-up trigger"
 
+/-! ### concurrent cases -/
+
+structure CRec where
+  id : Nat
+  chunks : Rec
+  fail : Option Nat
+  deriving Repr
+
+def CRec.bytes (r : CRec) : Bytes := recBytes r.chunks
+
+structure Round where
+  threads : List (List CRec)
+  late : Bool
+
+structure RoundObs where
+  acks : List (List Nat)
+  calls : Nat
+  snapS : String
+  snap : Spec.Snap
+
+def decCRec (s : String) : Option CRec :=
+  match decOp false s with
+  | some { op := .append r _, rec? := some rs, fail } => some { id := rs.id, chunks := r, fail }
+  | _ => none
+
+def decRoundObs (s : String) : Option RoundObs :=
+  match splitOnChar '!' s with
+  | [acksS, callsS, snapS] =>
+    match mapM? (fun t => mapM? decNat (decList ',' t)) (decList '|' acksS), decSnap snapS, decNat callsS with
+    | some acks, some snap, some calls => some { acks, calls, snapS, snap }
+    | _, _, _ => none
+  | _ => none
+
+/-- search for the commit order of the acknowledged non-empty records in the file: per thread the
+next unplaced record must be a prefix of what remains (records start with a unique id) -/
+def placeGo : Nat → List (List CRec) → Bytes → List (Nat × CRec) → Option (List (Nat × CRec))
+  | 0, ths, file, acc => if ths.all List.isEmpty && file.isEmpty then some acc.reverse else none
+  | fuel + 1, ths, file, acc =>
+    if ths.all List.isEmpty then (if file.isEmpty then some acc.reverse else none)
+    else (List.range ths.length).findSome? fun i =>
+      match ths[i]? with
+      | some (r :: rest) =>
+        if r.bytes.isPrefixOf file then placeGo fuel (ths.set i rest) (file.drop r.bytes.length) ((i, r) :: acc) else none
+      | _ => none
+
+structure RoundPlan where
+  /-- reconstructed commit order: (thread, record, fault index of the op) -/
+  order : List (Nat × CRec × Option Nat)
+
+/-- the commit order of one round, reconstructed from the observation: the record that lost the
+rotation (roller `Err`) first, then the acknowledged records in file order, then the rest -/
+def planRound (x : Expect) (minSize : Nat) (rd : Round) (o0 : RoundObs) : Except String RoundPlan :=
+  -- `~` is both "no thread" and "one thread that acknowledged nothing": normalise
+  let o : RoundObs := if o0.acks.isEmpty then { o0 with acks := List.replicate rd.threads.length [] } else o0
+  let total := (rd.threads.map List.length).sum
+  let rolls := Spec17.rollsNow minSize x && total > 0
+  let indexed : List (Nat × List CRec) := (List.range rd.threads.length).zip rd.threads
+  let isAcked := fun (i : Nat) (r : CRec) => ((o.acks[i]?).getD []).contains r.id
+  -- acknowledgements are a sub-list of the thread's ids, never of a record whose encoder fails
+  let acksOk := (indexed.all fun (i, t) =>
+      ((t.filter (fun r => isAcked i r)).map (·.id)) == (o.acks[i]?).getD [] && t.all (fun r => !(r.fail.isSome && isAcked i r)))
+  if !acksOk ∨ o.acks.length ≠ rd.threads.length then .error "acknowledgements are not a sub-sequence of each thread's records (or a failed encode was acknowledged)" else
+  let victims : List (Nat × CRec) := indexed.flatMap fun (i, t) => (t.filter (fun r => r.fail.isNone && !isAcked i r)).map (fun r => (i, r))
+  let encFails : List (Nat × CRec) := indexed.flatMap fun (i, t) => (t.filter (fun r => r.fail.isSome)).map (fun r => (i, r))
+  let lateHit := rolls && rd.late
+  -- who was first when the rotation reported Err
+  let first : Except String (List (Nat × CRec)) :=
+    if lateHit then
+      match victims with
+      | [v] => .ok [v]
+      | [] => (match encFails with
+               | e :: _ => .ok [e]
+               | [] => .error "the roller reported Err but every record was acknowledged")
+      | _ => .error "more than one record lost although only one rotation request can fail"
+    else if victims.isEmpty then .ok [] else .error "a record with a working encoder was not acknowledged"
+  match first with
+  | .error e => .error e
+  | .ok first =>
+    let initial := if rolls then [] else x.active
+    let active := (o.snap.get? activePath).getD []
+    if !initial.isPrefixOf active then .error "the active file does not start with the expected old content" else
+    let ackedNonEmpty := indexed.map fun (i, t) => t.filter (fun r => isAcked i r && !r.bytes.isEmpty)
+    let n := (ackedNonEmpty.map List.length).sum
+    match placeGo (n + 1) ackedNonEmpty (active.drop initial.length) [] with
+    | none => .error "the active file is not the old content followed by whole acknowledged records in per-thread order"
+    | some placed =>
+      let empties : List (Nat × CRec) := indexed.flatMap fun (i, t) => (t.filter (fun r => isAcked i r && r.bytes.isEmpty)).map (fun r => (i, r))
+      let firstIds := first.map (fun e => e.2.id)
+      let restFails := encFails.filter (fun e => !firstIds.contains e.2.id)
+      let all := first ++ placed ++ empties ++ restFails
+      .ok { order := all.zipIdx.map fun ((i, r), k) => (i, r, if k = 0 ∧ rd.late then some Spec17.LATE else none) }
+
+def xopOf (r : CRec) (f : Option Nat) : XOp :=
+  match r.fail with
+  | some n => .appendFail r.chunks n f
+  | none => .op (.append r.chunks f)
+
+/-- fold the statement over a reconstructed order; returns the final state, the number of rotation
+requests and the ids the statement says are acknowledged, per thread -/
+def specRound (c : Case) (minSize : Nat) (x : Expect) (nThreads : Nat) (plan : RoundPlan) : Expect × Nat × List (List Nat) :=
+  plan.order.foldl (fun (acc : Expect × Nat × List (List Nat)) (e : Nat × CRec × Option Nat) =>
+    let (x, calls, acks) := acc
+    let (i, r, f) := e
+    let (x', v) := Spec17.step c.window.2 minSize c.appendMode x (Spec17.evOf (xopOf r f))
+    match v with
+    | some v => (x', calls + v.calls, if v.ok then acks.set i ((acks[i]?).getD [] ++ [r.id]) else acks)
+    | none => (x', calls, acks)) (x, 0, List.replicate nThreads [])
+
+def sortedAcks (rd : Round) (acks : List (List Nat)) : List (List Nat) :=
+  -- acknowledgements in the thread's own order (the order of the plan is the commit order)
+  ((List.range rd.threads.length).zip rd.threads).map fun (i, t) => (t.map (·.id)).filter (fun id => ((acks[i]?).getD []).contains id)
+
+def renderAcks (acks : List (List Nat)) : String :=
+  encList "|" (acks.map (fun a => encList "," (a.map toString)))
+
+structure ConcRun where
+  spec : Option String          -- first failed clause
+  model : List String           -- rendered rounds of the model
+  tags : List String
+
+/-- walk the rounds: statement (S) and model (T) over the reconstructed commit orders -/
+def runRounds (c : Case) (minSize : Nat) (rounds : List Round) (obs : List RoundObs) : ConcRun :=
+  let rec go (k : Nat) (x : Expect) (rds : List Round) (os : List RoundObs) (opsSoFar : List XOp) (marks : List (Nat × Round × RoundPlan))
+      (spec : Option String) (tags : List String) : Option String × List XOp × List (Nat × Round × RoundPlan) × List String :=
+    match rds, os with
+    | [], [] => (spec, opsSoFar, marks, tags)
+    | rd :: rds, o :: os =>
+      let x := if k = 0 then x else (Spec17.step c.window.2 minSize c.appendMode x .restart).1
+      let pre : List XOp := if k = 0 then [] else [.op .restart]
+      let total := (rd.threads.map List.length).sum
+      let rolls := Spec17.rollsNow minSize x && total > 0
+      let tg := [if rolls then "rolls" else "no-roll"] ++ (if rolls ∧ k > 0 then ["later-round-rolls"] else []) ++
+        (if rolls ∧ rd.late then ["conc-roller-late-err"] else []) ++
+        (if rd.threads.any (fun t => t.any (fun r => r.fail.isSome)) then ["conc-encoder-error"] else [])
+      match planRound x minSize rd o with
+      | .error why =>
+        -- no admissible order: the statement fails here; the model continues with the serial order
+        let serial : List (Nat × CRec × Option Nat) :=
+          (((List.range rd.threads.length).zip rd.threads).flatMap fun (i, t) => t.map (fun r => (i, r, (none : Option Nat))))
+        let plan : RoundPlan := { order := serial }
+        let (x', _, _) := specRound c minSize x rd.threads.length plan
+        go (k + 1) x' rds os (opsSoFar ++ pre ++ plan.order.map (fun e => xopOf e.2.1 e.2.2)) (marks ++ [(pre.length, rd, plan)])
+          (spec <|> some (why ++ " in round " ++ toString k)) (tags ++ tg)
+      | .ok plan =>
+        let (x', calls, acks) := specRound c minSize x rd.threads.length plan
+        let why :=
+          if calls ≠ o.calls then some (toString o.calls ++ " rotation request(s) in round " ++ toString k ++ ", the statement allows exactly " ++ toString calls)
+          else if sortedAcks rd acks ≠ (if o.acks.isEmpty then List.replicate rd.threads.length [] else o.acks) then some ("acknowledgements differ from the statement's in round " ++ toString k)
+          else if o.snapS ≠ renderExpect c x' then some ("simultaneous first appends: not exactly one rotation of the old content with every record whole after it (round " ++ toString k ++ ")")
+          else none
+        go (k + 1) x' rds os (opsSoFar ++ pre ++ plan.order.map (fun e => xopOf e.2.1 e.2.2)) (marks ++ [(pre.length, rd, plan)])
+          (spec <|> why) (tags ++ tg)
+    | _, _ => (spec <|> some "observation arity", opsSoFar, marks, tags)
+  let (spec, allOps, marks, tags) := go 0 (expect0 c) rounds obs [] [] none []
+  -- the model over the same orders
+  let trAll := c.trace allOps
+  let snap0 := match trAll.head? with | some e => renderSnap e.2.files | none => "~"
+  let tr := trAll.drop 1
+  let rec render (tr : List (Option Out × Log4rs.Roller.Disk)) (marks : List (Nat × Round × RoundPlan)) (last : String) (acc : List String) : List String :=
+    match marks with
+    | [] => acc
+    | (npre, rd, plan) :: rest =>
+      let tr1 := tr.drop npre
+      let mine := tr1.take plan.order.length
+      let calls := (mine.map (fun e => callsOf e.1)).sum
+      let acks : List (List Nat) := (plan.order.zip mine).foldl (fun (a : List (List Nat)) (pe : (Nat × CRec × Option Nat) × (Option Out × Log4rs.Roller.Disk)) =>
+          match pe.2.1 with
+          | some o => if o.res = .ok then a.set pe.1.1 ((a[pe.1.1]?).getD [] ++ [pe.1.2.1.id]) else a
+          | none => a) (List.replicate rd.threads.length [])
+      let snap := match (tr.take (npre + plan.order.length)).getLast? with
+        | some e => renderSnap e.2.files
+        | none => last
+      render (tr1.drop plan.order.length) rest snap (acc ++ [renderAcks (sortedAcks rd acks) ++ "!" ++ toString calls ++ "!" ++ snap])
+  { spec, model := render tr marks snap0 [], tags }
+
+def concAnswer (c : Case) (minSize amp : Nat) (rounds : List Round) (obs : List RoundObs) (kindTag : String) : Answer :=
+  let run := runRounds c minSize rounds obs
+  let nth := (rounds.head?.map (fun r => r.threads.length)).getD 0
+  { model := encList "&" run.model,
+    spec := match run.spec with
+      | none => "ok"
+      | some why => "FAIL:" ++ why ++ ";sig=" ++ c.sig "C17" ++ "-conc",
+    tags := dedup (["conc", kindTag, "threads-" ++ toString nth, "amp-" ++ toString amp,
+      if c.appendMode then "append" else "truncate", "trig-" ++ trigKind c.trig, "roller-" ++ rollKind c.roll,
+      "rounds-" ++ toString rounds.length] ++
+      (if !isDense (slots0 c) then ["gapped-window"] else []) ++ (if !c.preArch.isEmpty then ["pre-archives"] else []) ++ run.tags) }
+
 def handleConc (cas obs : List String) : Answer :=
-  withConc cas obs fun cc =>
-    match cc.c.trig with
-    | .startup minSize =>
-      let c := cc.c
-      let x0 := expect0 c
-      let rolls := x0.active.length ≥ minSize
-      let total := (cc.threads.map List.length).sum
-      -- expected directory apart from the active file
-      let x1 : Expect := if rolls ∧ total > 0 then { x0 with window := Spec.rotateWindow c.window.2 x0.window x0.active, active := [] } else x0
-      let initial := x1.active
-      let active := (cc.snap.get? activePath).getD []
-      let othersOk : Bool :=
-        renderSnap (cc.snap.filter (fun e => e.1 ≠ activePath) ++ [(activePath, [])]) == renderExpect c { x1 with active := [] }
-      let allAcked := (cc.threads.zip cc.acks).all (fun (t, ids) => t.map (·.id) == ids)
-      let callsOk := cc.calls = (if rolls ∧ total > 0 then 1 else 0)
-      let ok := allAcked && othersOk && callsOk && Spec.isMergeOfWhole initial cc.acked active
-      { model := if ok then cc.echo else cc.serial,
-        spec := if ok then "ok" else
-          "FAIL:simultaneous first appends: not exactly one rotation of the old content with every record whole after it;sig=" ++ c.sig "C17" ++ "-conc",
-        tags := cc.tags ++ [if rolls then "rolls" else "no-roll"] }
-    | _ => badCase "C17 needs an on-start-up trigger"
+  match cas, obs with
+  | ["conc", m, pre, arch, trig, roll, clock, ampS, thS], [implObs] =>
+    match decCase m pre arch trig roll clock, decNat ampS,
+          mapM? (fun t => mapM? decCRec (decList ',' t)) (decList '|' thS) with
+    | some c, some amp, some threads =>
+      match c.trig with
+      | .startup minSize =>
+        if implObs.startsWith "PANIC" then
+          { model := "no-panic", spec := "FAIL:panic in a concurrent run;sig=" ++ c.sig "C17" ++ "-conc-panic", tags := ["panic"] }
+        else match decRoundObs implObs with
+        | some o => concAnswer c minSize amp [{ threads, late := false }] [o] "barrier-1-round"
+        | none => badCase "conc observation"
+      | _ => badCase "C17 needs an on-start-up trigger"
+    | _, _, _ => badCase "conc case"
+  | _, _ => badCase "arity"
+
+def handleConc2 (cas obs : List String) : Answer :=
+  match cas, obs with
+  | ["conc2", m, pre, arch, trig, roll, clock, ampS, lateS, roundsS], [implObs] =>
+    let rounds? := mapM? (fun rd => mapM? (fun t => mapM? decCRec (decList ',' t)) (decList '|' rd)) (decList ';' roundsS)
+    match decCase m pre arch trig roll clock, decNat ampS, mapM? decNat (decList ',' lateS), rounds? with
+    | some c, some amp, some lates, some rounds =>
+      match c.trig with
+      | .startup minSize =>
+        if implObs.startsWith "PANIC" then
+          { model := "no-panic", spec := "FAIL:panic in a concurrent run;sig=" ++ c.sig "C17" ++ "-conc-panic", tags := ["panic"] }
+        else match mapM? decRoundObs (splitOnChar '&' implObs) with
+        | some os =>
+          let rds := rounds.zipIdx.map fun (threads, k) => ({ threads, late := lates.contains k } : Round)
+          concAnswer c minSize amp rds os "rounds"
+        | none => badCase "conc2 observation"
+      | _ => badCase "C17 needs an on-start-up trigger"
+    | _, _, _, _ => badCase "conc2 case"
+  | _, _ => badCase "arity"
+
+/-! ### one trigger object shared by several appenders (the `Once` without the appender mutex) -/
+
+def handleOnce (cas obs : List String) : Answer :=
+  match cas, obs with
+  | ["once", minS, sizesS, nrecS], [implObs] =>
+    match decNat minS, mapM? decNat (decList ',' sizesS), decNat nrecS with
+    | some minSize, some sizes, some nrec =>
+      if implObs.startsWith "PANIC" then
+        { model := "no-panic", spec := "FAIL:panic;sig=C17/shared-trigger-panic", tags := ["panic"] }
+      else
+      let entries := (decList ',' implObs).map fun e =>
+        match splitOnChar ':' e with
+        | [cs, act, arch] =>
+          match decNat cs, C04.decBytesBig act, (if arch = "-" then some none else (C04.decBytesBig arch).map some) with
+          | some calls, some a, some ar => some (calls, a, ar)
+          | _, _, _ => none
+        | _ => none
+      match mapM? id entries with
+      | none => badCase "once observation"
+      | some es =>
+        if es.length ≠ sizes.length then badCase "once arity" else
+        let total := (es.map (·.1)).sum
+        let allBig := sizes.all (· ≥ minSize)
+        let noneBig := sizes.all (· < minSize)
+        let perOk := ((List.range sizes.length).zip (sizes.zip es)).all fun (i, sz, calls, act, arch) =>
+          let old := preArchBytes i sz
+          let recs := ((List.range nrec).map (fun s => C04.genBytes ((i + 1) * 65536 + s) 12)).flatten
+          if calls = 1 then decide (sz ≥ minSize) && arch == some old && act == recs
+          else calls == 0 && arch == none && act == old ++ recs
+        let why :=
+          if total > 1 then some (toString total ++ " rotation requests from ONE trigger object (at most one allowed)")
+          else if nrec > 0 ∧ !sizes.isEmpty ∧ allBig ∧ total ≠ 1 then some "no rotation although the first call saw a file of at least min_size"
+          else if noneBig ∧ total ≠ 0 then some "rotation although every file is smaller than min_size"
+          else if !perOk then some "an appender's files are not (old content archived, records alone) / (old content followed by records)"
+          else none
+        -- which appender's call comes first is the scheduler's choice: the model (`Once17`) fixes the
+        -- NUMBER of requests (`C17_once_at_most_one_yes`), so the model observation is the admitted
+        -- observation itself, or the canonical "appender 0 first" outcome when it is not admitted
+        let canon := encList "," (((List.range sizes.length).zip sizes).map fun (i, sz) =>
+          let old := preArchBytes i sz
+          let recs := ((List.range nrec).map (fun s => C04.genBytes ((i + 1) * 65536 + s) 12)).flatten
+          if i = 0 ∧ sz ≥ minSize ∧ nrec > 0 then "1:" ++ hex recs ++ ":" ++ hex old else "0:" ++ hex (old ++ recs) ++ ":-")
+        { model := if why.isNone then implObs else canon,
+          spec := match why with | none => "ok" | some w => "FAIL:" ++ w ++ ";sig=C17/shared-trigger",
+          tags := ["once", "appenders-" ++ toString sizes.length,
+                   if allBig then "all-big" else if noneBig then "none-big" else "mixed-sizes",
+                   "requests-" ++ toString total] ++ (if nrec = 0 then ["trivial"] else []) }
+    | _, _, _ => badCase "once case"
+  | _, _ => badCase "arity"
 
 def handle : Handler := fun cas obs =>
   match cas with
   | "seq" :: _ => handleSeq cas obs
   | "conc" :: _ => handleConc cas obs
+  | "conc2" :: _ => handleConc2 cas obs
+  | "once" :: _ => handleOnce cas obs
   | _ => badCase "kind"
 
 end Driver.C17
